@@ -45,7 +45,13 @@ def check_stream(case, rec):
     if ref.outcome.kind != "ok":
         rec.count(f"stream_not_wellformed_{ref.outcome.kind}")
         return
-    ts = TR.run("CommandResponseStream", case.d, strict=True)
+    # every third stream (and its individual messages) is decoded under a root path other than '.'
+    rooted = rec.evaluations % 3 == 1
+    if rooted:
+        rec.count("rooted_streams")
+    ts = TR.run("CommandResponseStream", case.d, strict=True, rooted=rooted)
+    if ts.root_escapes:
+        rec.violation("root-path", "path-outside-root", f"{case.short()}\nstream decoded with root_path='.log.msg': {TR.pstr(ts.root_escapes[0])} does not lie under that root", case.replay())
     rec.case(case.sig, nontrivial=len(ref.messages) > 1)
     rec.count("messages", len(ref.messages))
     if ts.outcome[0] != "ok":
@@ -56,9 +62,9 @@ def check_stream(case, rec):
     for m in ref.messages:
         b = case.d[m.start : m.end]
         if m.kind == "command":
-            t = TR.run("Command", b, strict=True)
+            t = TR.run("Command", b, strict=True, rooted=rooted)
         else:
-            t = TR.run("Response", b, strict=True, cc=m.cc, enc=m.enc)
+            t = TR.run("Response", b, strict=True, cc=m.cc, enc=m.enc, rooted=rooted)
             rec.count("responses_enc" if m.enc else "responses_plain")
         if t.outcome[0] != "ok":
             rec.violation("single-outcome", f"{m.kind}:{t.okind()}", f"{case.short()}\nmessage {m} alone ended with {t.outcome}", case.replay())
@@ -78,7 +84,9 @@ def check_stream(case, rec):
         b = singles[i] if i < len(singles) else None
         which = "type-object" if (a and b and a.kind == "M" and a.path == b.path and a.tname == b.tname and a.value == b.value) else "events"
         rec.violation("concat", which, f"{case.short()}\nstream event #{i} {a!r} != individual decode {b!r} (stream {len(ts.events)} events, individual {len(singles)})", case.replay())
-    # objects
+    # objects (the conversion works on paths below the default root)
+    if rooted:
+        return
     try:
         objs = list(events_to_objs([e.raw for e in ts.events]))
     except Exception as e:
